@@ -79,7 +79,8 @@ class NegSoftplusTransform(SoftplusTransform):
         Args:
             upper (ArrayLike): Upper bound of the interval.
         """
-        super().__init__(upper)
+        # `forward(x) = -softplus(-x) - lower` is bounded from above by `-lower`.
+        super().__init__(-upper)
 
     def forward(self, x: ArrayLike) -> Array:
         return -super().forward(-x)
